@@ -30,7 +30,7 @@ def post_auto(sig, choice, cfg, args, r, log):
 def run(chk):
     chk.level = "proof"
     from props import backend_conformance
-    backend_conformance.run(chk, "C06", names=("solve", "solvetri", "cholesky", "inv", "lstsq", "slogdet", "eigh", "norm"))
+    backend_conformance.run(chk, "C06", names=("solve", "solvetri", "cholesky", "inv", "lstsq", "lu", "slogdet", "eigh", "norm"))
     chk.assume("IterativeOperatorWInfo(A, alg) is given its idealised meaning M(A)^-1 (tol -> 0); the residual bound of CG/GMRES at a "
                "finite tolerance is the exit contract of C12/C13, convergence within max_iters (liveness) is not claimed")
     chk.assume("backward stability of LAPACK lu/cholesky/solve_triangular is a floating-point statement: out of reach, exact arithmetic only")
